@@ -1,6 +1,6 @@
 (* C11: remove_idle_qubits drops exactly the unused qubits and renumbers the rest. *)
 From Coq Require Import ZArith List Bool String.
-From Verif Require Import BGate PyVal Ast State Unroll Corr Spec Transforms TransformProofs ModuleSpec ModuleProofs.
+From Verif Require Import BGate PyVal Ast State Unroll Corr Spec Transforms TransformProofs ModuleSpec ModuleProofs FixProofs ValidProofs.
 Import ListNotations.
 Open Scope Z_scope.
 
@@ -64,3 +64,20 @@ Example C11_example :
                SGate [] "cx" [] [q 1; q 4]; SIf (EId "c") [SReset (q 3)] []]
   = [SQubitDecl "q" (Some (ELit (VInt 3))); SGate [] "cx" [] [q 0; q 2]; SIf (EId "c") [SReset (q 1)] []].
 Proof. vm_compute. reflexivity. Qed.
+
+(* ---- "yields a valid program": the visitor model and the result (Module/ValidProofs.v + Lang/FixProofs.v) ----
+   remove_idle of a well-formed flat program (what unroll() leaves, Props/C03.v) is a well-formed flat program: every
+   surviving register is declared with its new size (between 1 and the old size) under its old name, every operation --
+   at any depth of conditionals -- names renumbered qubits inside the shrunk registers, pairwise distinct as before.
+   Hence, for every such program of any size: validate() accepts the result, unroll() accepts it and emits it
+   unchanged, and num_qubits is the total of the shrunk registers. *)
+Theorem C11_result_is_a_valid_program_the_visitor_leaves_as_it_is fuel p :
+  wf_flat env0 p = true -> (ldepth (remove_idle p) < fuel)%nat ->
+  (exists o, run_visit false true [] fuel (remove_idle p) = Ok o /\ num_qubits (o_state o) = total_qubits (remove_idle p)) /\
+  (exists o, run_visit false false [] fuel (remove_idle p) = Ok o /\ o_stmts o = remove_idle p /\ num_qubits (o_state o) = total_qubits (remove_idle p)).
+Proof. exact (remove_idle_result_is_valid_and_stable fuel p). Qed.
+Print Assumptions C11_result_is_a_valid_program_the_visitor_leaves_as_it_is.
+
+Theorem C11_remove_idle_keeps_wellformedness p : wf_flat env0 p = true -> wf_flat env0 (remove_idle p) = true.
+Proof. exact (remove_idle_keeps_wellformed p). Qed.
+Print Assumptions C11_remove_idle_keeps_wellformedness.
